@@ -339,8 +339,15 @@ def _want_split(argv, opts, module, valueless=frozenset()):
     """what fakesnow's own arguments are, by argparse's rules for one-value options (separate, --long=value, -sVALUE)
     and for options that take no value"""
     i = 0
+    longs = [o for o in (set(opts) | set(module) | set(valueless)) if o.startswith("--")]
+    argv = list(argv)
     while i < len(argv):
         a = argv[i]
+        if a.startswith("--") and a.split("=", 1)[0] not in longs:
+            # argparse (allow_abbrev) accepts an unambiguous prefix of a long option: `--db_p DIR` is `--db_path DIR`
+            cands = [o for o in longs if o.startswith(a.split("=", 1)[0])]
+            if len(cands) == 1:
+                a = cands[0] + a[len(a.split("=", 1)[0]):]
         if a in valueless:
             i += 1
             continue
@@ -384,6 +391,11 @@ def rule_split_forms(ctx):
         own_forms += [[short, "V"], [short + "V"]]
     if long_:
         own_forms += [[long_, "V"], [long_ + "=V"]]
+        abbr = long_[:-2]
+        no_abbrev = any(isinstance(c, ast.Call) and norm(c.func).endswith("ArgumentParser") and any(
+            k.arg == "allow_abbrev" and isinstance(k.value, ast.Constant) and k.value.value is False for k in c.keywords) for c in ast.walk(m.tree))
+        if len(abbr) > 3 and not no_abbrev and sum(1 for o in opts | module | valueless if o.startswith(abbr)) == 1:
+            own_forms += [[abbr, "V"]]  # the parser accepts unambiguous prefixes of long options
     for o in sorted(valueless)[:2]:  # an option without a value is complete by itself (C20.d: split()/parser agreement)
         own_forms += [[o], [o, short, "V"]] if short else [[o]]
     targets = [["script.py"]]
